@@ -410,6 +410,8 @@ class Run:
                   wall_s=round(time.time() - self.t0, 1), violations=len(self.violations))
         # evidence describes /repo; a run pointed at another tree (mutant / seeded-change testing) must not overwrite it
         evdir = os.path.join(VERIF, "evidence") if os.path.realpath(self.repo) == "/repo" else os.path.join(tempfile.gettempdir(), "verif-evidence-other-tree")
+        if not re.match(r"^C\d\d$", self.pid):
+            evdir = os.path.join(VERIF, "evidence_extra")      # checks that belong to no listed property (specification growth)
         os.makedirs(evdir, exist_ok=True)
         json.dump(ev, open(os.path.join(evdir, self.pid + ".json"), "w"), indent=1)
         shutil.rmtree(self.work, ignore_errors=True)
